@@ -774,18 +774,20 @@ impl Word {
                     if let AliasParseElement::Segments(segments) = &alias.input.kind {
                         let back_pos = j;
                         let mut is_match = true;
-                        let mut plus_match_len = false;
+                        // where each element of the alias began, and whether it stood for a whole long segment (a length condition)
+                        let mut spans: Vec<(usize, bool)> = Vec::new();
                         let mut tone_matched = false;
                         for segtype in segments {
                             if j >= syll.segments.len() {
                                 is_match = false; break;
                             }
+                            spans.push((j, false));
                             match segtype {
                                 SegType::Ipa(segment, modifiers) => {
                                     if let Some(mods) = modifiers {
                                         let (m, maybe_len, maybe_tone) = self.alias_match_ipa_with_mods(i, j, segment, mods);
                                         if !m { is_match = false; break; }
-                                        if let Some(len) = maybe_len { j+=len; plus_match_len = true; } else { j+=1; }
+                                        if let Some(len) = maybe_len { j+=len; spans.last_mut().unwrap().1 = true; } else { j+=1; }
                                         if maybe_tone { tone_matched = true; }
                                     } else {
                                         if j >= syll.segments.len() || syll.segments[j] != *segment {
@@ -797,7 +799,7 @@ impl Word {
                                 SegType::Matrix(modifiers) => {
                                     let (m, maybe_len, maybe_tone) = self.alias_match_modifiers(i, j, modifiers);
                                     if !m { is_match = false; break; }
-                                    if let Some(len) = maybe_len { j+=len; plus_match_len = true; } else { j+=1; }
+                                    if let Some(len) = maybe_len { j+=len; spans.last_mut().unwrap().1 = true; } else { j+=1; }
                                     if maybe_tone { tone_matched = true; }
                                 },
                             }
@@ -807,12 +809,12 @@ impl Word {
                             match &alias.output.kind {
                                 AliasParseElement::Replacement(repl, plus) => {
                                     if *plus {
-                                        if !plus_match_len {
-                                            for ind in back_pos..j {
+                                        // every matched segment keeps its letter; one that was matched as a whole long segment is written once
+                                        for (k, (start, whole)) in spans.iter().enumerate() {
+                                            let end = if *whole { start + 1 } else { spans.get(k + 1).map_or(j, |next| next.0) };
+                                            for ind in *start..end {
                                                 buffer.push_str(&self.americanise(syll.segments[ind].get_nearest_grapheme()));
                                             }
-                                        } else {
-                                            buffer.push_str(&self.americanise(syll.segments[j-1].get_nearest_grapheme()));
                                         }
                                     } 
                                     buffer.push_str(repl);
